@@ -302,7 +302,7 @@ def rule_native_results_normalised(ctx, rep, rid: str) -> None:
             if isinstance(p, ast.Assign) and isinstance(p.targets[0], ast.Name):
                 var = p.targets[0].id
                 uses = [x for x in m.own_nodes() if isinstance(x, ast.Name) and x.id == var and isinstance(x.ctx, ast.Load) and x.lineno >= p.lineno]
-                norm_ok = any(isinstance(getattr(u, "_parent", None), ast.Compare) and "is not None" in norm(getattr(u, "_parent")) for u in uses)
+                norm_ok = any(isinstance(getattr(u, "_parent", None), ast.Compare) and norm(getattr(u, "_parent")) in (f"{var} is not None", f"{var} is None") for u in uses)
                 pushed = any(isinstance(getattr(u, "_parent", None), ast.Call) and norm(getattr(u, "_parent").func) == "self.stack.append" for u in uses)
                 returned = any(isinstance(getattr(u, "_parent", None), ast.Return) for u in uses)
                 if norm_ok:
